@@ -47,6 +47,8 @@ SHAPES = {
     "PH": ("prop", "int = field(default=0, hash=False)", dict(compare=True, init=True)),
     "PCH": ("prop", "int = field(default=0, compare=False, hash=True)", dict(compare=False, init=True)),
     "CO": ("one", "ASTNode | None = None", {}),
+    # an optional child WITHOUT a default: it must be passed, and None may be passed (used instead of CO in the second scheme)
+    "COK": ("one", "ASTNode | None = field(kw_only=True)", {}),
     "CT": ("tuple", "tuple[ASTNode, ...] = ()", {}),
     "CU": ("one", "CL12 | CF12 | None = None", {}),
 }
@@ -66,7 +68,7 @@ class CF12(ASTNode):
 
 def hierarchies(tier):
     """Yield hierarchies: list of levels; a level is a list of (name, shape)."""
-    shapes = [x for x in SHAPES if x not in ("PH", "PCH")]
+    shapes = [x for x in SHAPES if x not in ("PH", "PCH", "COK")]
     lvl1 = [[]] + [[(NAMES[0][0], s)] for s in shapes] + [[(NAMES[0][0], s), (NAMES[0][1], t)] for s in shapes for t in shapes]
     # the same two names declared the other way round: other classes of this process have the same field names and kinds
     # in another declaration order
@@ -94,7 +96,7 @@ def hierarchies(tier):
 RENAME = {"m": "_m", "c": "Zc", "x": "_x", "a": "a_", "k": "K9", "b": "_b"}
 
 
-RESHAPE = {"P": "PH", "PC": "PCH"}
+RESHAPE = {"P": "PH", "PC": "PCH", "CO": "COK"}
 
 
 def renamed(h):
@@ -147,8 +149,8 @@ def spec_fields(h, level):
 
 def instance_variants(fl):
     """kwargs variants for the init child fields; properties keep their defaults (values 0 / 7)."""
-    kids = [(n, s) for n, s in fl if s in ("CO", "CT", "CU")]
-    yield "defaults", {}
+    kids = [(n, s) for n, s in fl if s in ("CO", "CT", "CU", "COK")]
+    yield "defaults", {n: None for n, s in kids if s == "COK"}
     if kids:
         yield "present", {n: (CL12(1), CF12(), CL12(2)) if s == "CT" else CL12(3) for n, s in kids}
         yield "falsy", {n: (CF12(),) if s == "CT" else CF12() for n, s in kids}
